@@ -1,0 +1,154 @@
+//go:build verif
+
+package goja
+
+import (
+	"fmt"
+	"strings"
+	"sync/atomic"
+)
+
+// Read-only accessors used by the verification harness in /verif.
+// Nothing in this file is compiled without the "verif" build tag and nothing
+// here changes the behaviour of the engine.
+
+// VerifVMStateInfo is a snapshot of the execution registers of a Runtime.
+type VerifVMStateInfo struct {
+	SP, SB, PC   int
+	PrgNil       bool
+	CallStack    int
+	TryStack     int
+	IterStack    int
+	RefStack     int
+	StashGlobal  bool
+	PrivEnvNil   bool
+	JobQueue     int
+	Interrupted  bool
+	AsyncRunner  bool
+	StackLen     int
+	NewTargetNil bool
+}
+
+func VerifVMState(r *Runtime) VerifVMStateInfo {
+	vm := r.vm
+	return VerifVMStateInfo{
+		SP:           vm.sp,
+		SB:           vm.sb,
+		PC:           vm.pc,
+		PrgNil:       vm.prg == nil,
+		CallStack:    len(vm.callStack),
+		TryStack:     len(vm.tryStack),
+		IterStack:    len(vm.iterStack),
+		RefStack:     len(vm.refStack),
+		StashGlobal:  vm.stash == &r.global.stash,
+		PrivEnvNil:   vm.privEnv == nil,
+		JobQueue:     len(r.jobQueue),
+		Interrupted:  atomic.LoadUint32(&vm.interrupted) != 0,
+		AsyncRunner:  vm.curAsyncRunner != nil,
+		StackLen:     len(vm.stack),
+		NewTargetNil: vm.newTarget == nil,
+	}
+}
+
+// VerifNumRepr reports the internal representation of a Number value:
+// "int", "float" or "other"; canonical is false for a float that holds a value
+// which the engine normally represents as an int.
+func VerifNumRepr(v Value) (kind string, canonical bool) {
+	switch n := v.(type) {
+	case valueInt:
+		return "int", true
+	case valueFloat:
+		_, ok := floatToInt(float64(n))
+		return "float", !ok
+	}
+	return "other", true
+}
+
+// VerifStrRepr reports the internal representation of a String value.
+// For utf16 storage asciiOnly tells whether it holds only ASCII code units.
+func VerifStrRepr(v Value) (kind string, asciiOnly bool) {
+	switch s := v.(type) {
+	case asciiString:
+		return "ascii", true
+	case unicodeString:
+		ao := true
+		for _, c := range s[1:] {
+			if c >= 0x80 {
+				ao = false
+				break
+			}
+		}
+		return "utf16", ao
+	case *importedString:
+		ao := true
+		for i := 0; i < len(s.s); i++ {
+			if s.s[i] >= 0x80 {
+				ao = false
+				break
+			}
+		}
+		if !s.scanned {
+			return "imported-unscanned", ao
+		}
+		if s.u != nil {
+			return "imported-utf16", ao
+		}
+		return "imported-ascii", ao
+	}
+	return "other", false
+}
+
+// VerifArrayKind reports the storage strategy of an Array object.
+func VerifArrayKind(v Value) (kind string, objCount, propValueCount, storeLen int) {
+	if o, ok := v.(*Object); ok {
+		switch a := o.self.(type) {
+		case *arrayObject:
+			return "dense", a.objCount, a.propValueCount, len(a.values)
+		case *sparseArrayObject:
+			return "sparse", 0, a.propValueCount, len(a.items)
+		}
+	}
+	return "other", 0, 0, 0
+}
+
+// VerifRegexpEngine reports which engine backs a RegExp object ("re2",
+// "regexp2") and whether the object is still on the unmodified fast path.
+func VerifRegexpEngine(v Value) (engine string, standard bool) {
+	if o, ok := v.(*Object); ok {
+		if r, ok := o.self.(*regexpObject); ok {
+			if r.pattern == nil {
+				return "none", r.standard
+			}
+			if r.pattern.regexpWrapper != nil {
+				return "re2", r.standard
+			}
+			if r.pattern.regexp2Wrapper != nil {
+				return "regexp2", r.standard
+			}
+			return "none", r.standard
+		}
+	}
+	return "other", false
+}
+
+// VerifDump returns the bytecode listing of a compiled Program.
+func VerifDump(p *Program) string {
+	var sb strings.Builder
+	p.dumpCode(func(format string, args ...interface{}) {
+		fmt.Fprintf(&sb, format, args...)
+		sb.WriteByte('\n')
+	})
+	return sb.String()
+}
+
+// VerifDumpTypes returns the instruction type names of a compiled Program
+// (including nested functions), in order.
+func VerifDumpTypes(p *Program) []string {
+	var res []string
+	p.dumpCode(func(format string, args ...interface{}) {
+		if len(args) >= 3 {
+			res = append(res, fmt.Sprintf("%T", args[2]))
+		}
+	})
+	return res
+}
